@@ -109,6 +109,8 @@ class Out:
         self.clause_index = []   # dicts: label, props, kind, fn, line_lo, line_hi
         self.fn_index = []       # dicts: name, line_lo, line_hi, source file, mode
         self.log = []            # extraction log (rules applied)
+        self.force_assume = {}   # qualified fn name -> reason (set by the driver after Verus rejected the fn)
+        self.unreachable = {}    # qualified fn name -> reason
     def emit(self, text):
         for l in text.split('\n'):
             self.lines.append(l)
@@ -344,27 +346,53 @@ def emit_fn(out, item, relfile, container, contracts, in_trait_decl=False, inden
         out.fn_index.append({'name': qual, 'file': relfile, 'line_lo': lo, 'line_hi': out.lineno - 1, 'mode': 'no-contract'})
         return
     contract.used = True
-    if body is not None:
-        sig, body = apply_rewrites(qual, sig, body, contract, out.log)
-    sig = name_return(sig, contract.ret, out.log, qual)
-    if contract.mode == 'assume':
+    forced = qual in getattr(out, 'force_assume', {})
+    fallback_reason = out.force_assume.get(qual) if forced else None
+    chunks = None
+    osig, obody = sig, body
+    if not forced:
+        try:
+            if body is not None:
+                sig, body = apply_rewrites(qual, sig, body, contract, out.log)
+            sig = name_return(sig, contract.ret, out.log, qual)
+            if body is not None and contract.mode != 'assume':
+                body = apply_hints(qual, body, contract, out.log)
+                chunks = insert_loop_contracts(qual, body, contract, out)
+        except LostAnchor as e:
+            fallback_reason = 'lost anchor: %s' % e
+    if fallback_reason is not None:
+        # the function cannot be brought under its contract (anchor lost, or Verus rejects a construct in it):
+        # keep it in the file as external_body so that its callers are still verified against the contract,
+        # and report it as OUTSIDE THE VERIFIER'S REACH (never as proved)
+        sig, body = osig, obody
+        try:
+            if body is not None:
+                only = Contract(contract.key); only.rewrites = [r for r in contract.rewrites if r in ('X3',)]
+                sig, _b = apply_rewrites(qual, sig, body, only, [])
+            sig = name_return(sig, contract.ret, [], qual)
+        except LostAnchor:
+            pass
+        out.unreachable[qual] = fallback_reason
+        out.log.append({'rule': 'FALLBACK', 'fn': qual, 'what': 'external_body, contract assumed for callers: ' + fallback_reason})
+        body = ' unimplemented!() ' if body is not None else None
+        chunks = None
+    mode = 'unreachable' if fallback_reason is not None else contract.mode
+    if mode in ('assume', 'unreachable'):
         out.emit(indent + '#[verifier::external_body]')
-        out.log.append({'rule': 'X7', 'fn': qual, 'what': 'body kept but marked external_body: contract ASSUMED'})
+        if mode == 'assume':
+            out.log.append({'rule': 'X7', 'fn': qual, 'what': 'body kept but marked external_body: contract ASSUMED'})
     out.emit(indent + sig)
     emit_clauses(out, qual, contract.clauses, indent + '    ')
     if body is None:
         out.emit(indent + ';')
     else:
-        body = apply_hints(qual, body, contract, out.log)
-        chunks = insert_loop_contracts(qual, body, contract, out)
         out.emit(indent + '{')
-        if contract.mode != 'assume':
+        if mode == 'verify':
             # X11: every verified body starts with the same ghost statement making the proved library
             # lemmas available (ghost code, erased by Verus; a module-level `broadcast use` would be cyclic)
             out.emit(indent + '    broadcast use lib::group_lib;')
-        # emit body preserving text; body starts right after '{'
         buf = ''
-        for ch in chunks:
+        for ch in (chunks if chunks is not None else [body]):
             if isinstance(ch, tuple):
                 if buf:
                     out.emit(buf.rstrip('\n')); buf = ''
@@ -372,10 +400,10 @@ def emit_fn(out, item, relfile, container, contracts, in_trait_decl=False, inden
                 out.log.append({'rule': 'X9', 'fn': qual, 'what': 'loop %d clauses inserted' % ch[1]})
             else:
                 buf += ch
-        out.emit(buf.rstrip() )
+        out.emit(buf.rstrip())
         out.emit(indent + '}')
     out.fn_index.append({'name': qual, 'file': relfile, 'line_lo': lo, 'line_hi': out.lineno - 1,
-                         'mode': contract.mode})
+                         'mode': mode})
 
 def emit_type(out, item, relfile):
     kind, name = header_kind_name(item.header)
